@@ -81,7 +81,6 @@ func guardStr(i ssa.Instruction) string {
 
 // ---------------------------------------------------------------- values
 
-
 // constString returns the value of a string constant.
 func constStringB(v ssa.Value) (string, bool) {
 	c, ok := stripConv(v).(*ssa.Const)
@@ -143,7 +142,7 @@ func calleePkgPath(i ssa.Instruction) string {
 // ---------------------------------------------------------------- index
 
 type modIndex struct {
-	fieldStores map[string][]*ssa.Store            // "pkg.Struct.field" -> stores
+	fieldStores map[string][]*ssa.Store             // "pkg.Struct.field" -> stores
 	callers     map[*ssa.Function][]ssa.Instruction // static call sites (call/go/defer)
 	valueUses   map[*ssa.Function]int               // uses of the function as a value (not a direct call)
 }
